@@ -207,6 +207,24 @@ func protectedPath(s string) bool {
 	return false
 }
 
+// entryListRule: whatever a patch carries as its key or service entries is a list of JSON objects; an entry that is
+// not an object has no id, type or key material at all, and a value that is not a list is no list of entries.
+func entryListRule(v interface{}) string {
+	if v == nil {
+		return ""
+	}
+	l, ok := v.([]interface{})
+	if !ok {
+		return fmt.Sprintf("entries given as %T instead of a list", v)
+	}
+	for i, e := range l {
+		if _, ok := e.(map[string]interface{}); !ok {
+			return fmt.Sprintf("entry %d is not an object (%v): it has no id", i, e)
+		}
+	}
+	return ""
+}
+
 // brokenRule returns the first stated rule the (accepted) patch list violates, or "".
 func brokenRule(patches []interface{}, enabled []string) string {
 	for i, p := range patches {
@@ -224,12 +242,22 @@ func brokenRule(patches []interface{}, enabled []string) string {
 		var r string
 		switch a {
 		case "add-public-keys":
-			r = keyRules(objectsOf(pm["publicKeys"]))
+			if r = entryListRule(pm["publicKeys"]); r == "" {
+				r = keyRules(objectsOf(pm["publicKeys"]))
+			}
 		case "add-services":
-			r = serviceRules(objectsOf(pm["services"]))
+			if r = entryListRule(pm["services"]); r == "" {
+				r = serviceRules(objectsOf(pm["services"]))
+			}
 		case "replace":
 			d, _ := pm["document"].(map[string]interface{})
-			if r = keyRules(objectsOf(d["publicKeys"])); r == "" {
+			if r = entryListRule(d["publicKeys"]); r == "" {
+				r = entryListRule(d["services"])
+			}
+			if r == "" {
+				r = keyRules(objectsOf(d["publicKeys"]))
+			}
+			if r == "" {
 				r = serviceRules(objectsOf(d["services"]))
 			}
 		case "ietf-json-patch":
@@ -440,7 +468,9 @@ func nearMissService(t *rapid.T) map[string]interface{} {
 
 var jsonPaths = []string{"/m1", "/m1/0", "/m1/-", "/m1/-1", "/m1/-2", "/m1/1", "/m1/2", "/m1/5", "/m1/x", "/nested/a/b", "/nested/a", "/nested/x/y", "/publicKey", "/publicKey/0", "/publicKey/0/id", "/publicKeys", "/publicKeyX",
 	"/service", "/service/0/id", "/services", "/serviceEndpoint", "/alsoKnownAs/0", "/alsoKnownAs/-", "", "/", "//", "/label", "/label/x", "/m2", "/nul", "/nul/x", "/nul/0", "m1", "/~1", "/~01", "/~", "/m1/00", "/m1/1e0", "/m1/+1",
-	"/deep/a/b/c/d", "/deep/a/0/b", "/arr2/0/0", "/arr2/0/-1", "/arr2/-1/0", "/ public", "/PublicKey", "/Service"}
+	"/deep/a/b/c/d", "/deep/a/0/b", "/arr2/0/0", "/arr2/0/-1", "/arr2/-1/0", "/ public", "/PublicKey", "/Service",
+	// array indices far beyond any array (2^40, 2^44, 2^62, 2^63-1, beyond int64): nothing may be allocated for them
+	"/m1/1099511627776", "/m1/17592186044416", "/m1/4611686018427387904", "/m1/9223372036854775807", "/m1/18446744073709551616", "/arr2/0/17592186044416", "/m1/1000000"}
 
 var jsonValues = []interface{}{"s", float64(1), true, nil, map[string]interface{}{}, []interface{}{}, map[string]interface{}{"a": nil}, []interface{}{nil}, map[string]interface{}{"id": "k9", "type": "x"}}
 
@@ -533,6 +563,15 @@ func genPatch(t *rapid.T) interface{} {
 		if rapid.IntRange(0, 5).Draw(t, "extraMember") == 0 {
 			doc["alsoKnownAs"] = []interface{}{"x"}
 		}
+		if rapid.IntRange(0, 7).Draw(t, "entriesNotAList") == 0 {
+			// the entries given as something other than a list: a single entry object, a string, a number, null
+			which := rapid.SampledFrom([]string{"publicKeys", "services"}).Draw(t, "notAListMember")
+			single := interface{}(nearMissService(t))
+			if which == "publicKeys" {
+				single = nearMissKey(t)
+			}
+			doc[which] = rapid.SampledFrom([]interface{}{single, "k1", float64(5), nil, map[string]interface{}{}}).Draw(t, "notAListValue")
+		}
 		return map[string]interface{}{"action": "replace", "document": doc}
 	case 5:
 		return map[string]interface{}{"action": rapid.SampledFrom([]string{"remove-public-keys", "remove-services"}).Draw(t, "rmAction"),
@@ -589,7 +628,7 @@ func classOf(c *Case) []string {
 }
 
 func TestAcceptedDeltas(t *testing.T) {
-	ev.Rule(chkRules, "rapid: deltas of 1-3 patches drawn from: valid patches; add-public-keys / add-services / replace with near-miss entries (id length 0/1/49/50/51/200 and illegal characters, duplicate ids, type x purposes mismatches, 0/1/2 key-material members and foreign members, JWK missing crv/kty/x, service type 0/1/30/31/90, endpoint as string / array with the bad URI at every index / object / null / number; entry lists with a stray non-object member at a drawn position); remove patches with ill-typed id lists; json-patch lists over the six RFC 6902 operations (and unknown / ill-typed ops) with path / from / value present, absent, ill-typed, pointing at, under and next to /publicKey and /service, array indices -2..len+1 and '-', copy / move between differently spelled pointers to one location (index 0 / 00 / +0 / -0 / -1), null values, test without value; under a drawn set of enabled actions; oracle (i): ValidateDelta accepts => the independent rule predicate finds no violated rule; accept rate is reported; non-trivial = an accepted delta with a near-miss or json-patch patch")
+	ev.Rule(chkRules, "rapid: deltas of 1-3 patches drawn from: valid patches; add-public-keys / add-services / replace with near-miss entries (id length 0/1/49/50/51/200 and illegal characters, duplicate ids, type x purposes mismatches, 0/1/2 key-material members and foreign members, JWK missing crv/kty/x, service type 0/1/30/31/90, endpoint as string / array with the bad URI at every index / object / null / number; entry lists with a stray non-object member at a drawn position, replace documents whose entries are not a list but a single object / string / number / null); remove patches with ill-typed id lists; json-patch lists over the six RFC 6902 operations (and unknown / ill-typed ops) with path / from / value present, absent, ill-typed, pointing at, under and next to /publicKey and /service, array indices -2..len+1 and '-', copy / move between differently spelled pointers to one location (index 0 / 00 / +0 / -0 / -1), null values, test without value; under a drawn set of enabled actions; oracle (i): ValidateDelta accepts => the independent rule predicate finds no violated rule; accept rate is reported; non-trivial = an accepted delta with a near-miss or json-patch patch")
 	ev.Rule(chkApply, "every accepted delta of the cases above is applied with the real composer to a reachable document (result of 0-4 valid patches on {}) or to one of 5 hand-made small documents (arrays, nested objects, null members, sections present / null): oracle (ii) a document or an error, never a panic (caught in-process), a hang (20 s watchdog) or a fatal crash (in-flight journal confirmed in a fresh process); oracle (iii) after an accepted json-patch-only delta the publicKey and service members are deep-equal to before; non-trivial = accepted delta containing a json-patch with an array index, a from, or a null / absent value")
 	ev.Rapid(t, chkRules, 3000, 40000, func(t *rapid.T) {
 		c := &Case{Enabled: wire.AllPatches}
